@@ -36,7 +36,16 @@ for n in range(1, 19):
     out.append(
         f"| {p} | {'yes' if p in READY else 'no'} | {meta['level']} | {len(th)} | {', '.join(nk) or '-'} / {', '.join(nf) or '-'} | {caught}/{len(sm)} |"
     )
-    details.append(f"**{p}** ({meta['level']}). {meta['level_text']}\n\n*Technique.* {meta['technique']}\n\n*Trusted / assumed.* {meta['level_note']}\n\n*Theorems.* " + ", ".join(f"`{t}`" for t in th) + "\n")
+    axs = set()
+    ev = ROOT / "evidence" / f"{p}.json"
+    if ev.exists():
+        try:
+            for v in json.loads(ev.read_text())["coverage"].get("axioms_per_theorem", {}).values():
+                axs.update(v)
+        except Exception:
+            pass
+    axline = ("*Axioms reported by `Print Assumptions` (last run).* " + (", ".join(f"`{a}`" for a in sorted(axs)) if axs else "none - every property theorem is closed under the global context") + "\n")
+    details.append(f"**{p}** ({meta['level']}). {meta['level_text']}\n\n*Technique.* {meta['technique']}\n\n*Trusted / assumed.* {meta['level_note']}\n\n" + axline + "\n*Theorems.* " + ", ".join(f"`{t}`" for t in th) + "\n")
     for m in sm:
         how = m.get("caught_by") or ("quick check: VIOLATION" if m.get("check_quick_violation_lines", 0) > 0 else "MISSED by the quick check")
         details.append(f"*Seeded change `{m.get('name')}`.* {m.get('summary','')[:600]} — needs: {m.get('needs','')[:400]} — **{how}**.\n")
